@@ -64,7 +64,7 @@ m = {
  ],
  "checks": sorted(CHECKS, key=lambda c: c["property_id"]),
  "not_applicable": na,
- "notes": "Deviations are classified by the trace specification itself (Label in Trace_Transfer.tla); a check reports only deviations labelled with its own property. known_findings.json lists fixed defects (D1 D2 D3 D5) found by this machinery.",
+ "notes": "Deviations are classified by the trace specification itself (Label in Trace_Transfer.tla); a check reports only deviations labelled with its own property. known_findings.json lists the defects found by this machinery: D1 D2 D3 D4 D5 D7 D8 repaired by fix: commits in /repo, D6 open (KNOWN-FINDING line of C13).",
 }
 json.dump(m, open(os.path.join(V, "MANIFEST.json"), "w"), indent=1)
 print("checks:", sorted(claimed), "not_applicable:", [x["property_id"] for x in na])
